@@ -10,7 +10,8 @@ The code is mirrored as it is *now*, i.e. after the repairs 0e77b99 (`free_width
 column gaps), e5d53d3 (sparse `_get_second_placement` starts at track 0 when nothing is occupied), cd18f00
 (sparse "second axis given, first axis span" loop resolves the span from `cursor_first`), c8a4ac7 (`_get_line`
 counts the occurrences of the name), 34cd729 (columns sized from `implicit_x1`), ca85a65 (justify-self uses the
-max-content *content* width), including what is still there:
+max-content *content* width), cec57c9 (`size = 0` before the forward named-span loop), 5e11506 (the backward named
+span counts with the span's own number), including what is still there:
   * `coord = number - 1` for negative line numbers as well (they are not counted from the end);
   * Python negative indexing / slicing of the track lists (`pyGet?`, `pySlice`);
   * items whose row is negative are never laid out (`skip_row <= y`).
@@ -195,7 +196,8 @@ def getPlacement (start end_ : Place) (lines : List (List String)) : Except GErr
           match coord with
           | none => throw (.typeError "_get_placement.coord+1")
           | some c =>
-            let (sz, sn, broke) := spanForward name (pySliceFrom lines (c + 1)) 1 sn0 sn0
+            -- `size = 0` before the loop (cec57c9): an empty `lines[coord+1:]` leaves `0 + span_number`
+            let (sz, sn, broke) := spanForward name (pySliceFrom lines (c + 1)) 1 0 sn0
             size := some (if broke then sz else sz + sn)
       else
         match coord, coordEnd with
@@ -213,7 +215,10 @@ def getPlacement (start end_ : Place) (lines : List (List String)) : Except GErr
             | none => throw (.unboundLocal "_get_placement.size")
             | some s => coord := some (ce - s)
           | some (some name) =>
-            let number := numOr1 r.number
+            -- `number = size` (5e11506): the count of the span of the start line
+            match size with
+            | none => throw (.unboundLocal "_get_placement.size")
+            | some number =>
             if ce > 0 then
               let (k, n', broke) := spanBackward name (pyBackFrom lines (ce - 1)) 0 number
               match broke, k with
